@@ -302,3 +302,45 @@ prop("C18", shards=16,
      level_note="Trusted: math/big, crypto/*, harness/ref/java (25 lines). Hook: unexported authDigest/twosComplement and the embedded "
                 "key are reached through -overlay files under /verif/overlay guarded by the verif build tag. The positive control "
                 "mirrors go-mc's message format; it is not part of the claim.")
+
+prop("C19", shards=16, pkg="props_race", race=True, timeout=(1200, 7200),
+     technique="rapid-generated sessions of the real bot client against the real server gate (in-memory duplex and loopback TCP) under the race detector, checked against a dispatch model",
+     rule="A server.Server assembled from MojangLoginHandler{OnlineMode:false, Threshold}, PingInfo+PlayerList, a harness ConfigHandler "
+          "that sends FinishConfiguration and a harness GamePlay that first consumes the client's configuration acknowledgement; a "
+          "bot.Client joining through JoinOptions.MCDialer over a buffered in-memory duplex (optionally fragmented reads) or over "
+          "loopback TCP. Generated: player name ([A-Za-z0-9_]{1,16} and non-ASCII), threshold in {-1,0,1,64,256,2^20}, 0..40 "
+          "(thorough 200) play packets each way with sizes around the threshold and VarInt boundaries up to 70000 bytes, bundle "
+          "delimiters (always closed), 0..8 handlers (generic / per id, priorities -2..2 with ties, registered in generated "
+          "batches), one handler failing at a generated position, LoginChecker accepting/refusing, status ping through "
+          "PingAndListContext. Oracle: AcceptPlayer(name, id, protocol) == (sent name, Java offline UUID, bot.ProtocolVersion) == "
+          "client.Name/UUID; packets received == packets sent in order both ways; the recorded handler-call log == the model "
+          "(generic before specific, descending priority, registration order on ties, bundled packets after the closing delimiter in "
+          "order); HandleGame stops with a PacketHandlerError wrapping the failing handler's error; refusing checker => JoinServer "
+          "error; ping JSON carries the status handler's values. A data race report fails the run. Non-trivial: packets on both "
+          "sides of a threshold >= 0, or a bundle, or >= 3 handlers with a priority tie. Distinct: hash of the JSON case.",
+     level_text="Sampled sessions of both real state machines against each other; goroutine schedules are whatever the Go scheduler "
+                "produces (not controlled), the race detector watches every run.",
+     level_note="Trusted: the harness handlers, harness/ref/java, harness/iox.Duplex. server.Configurations is not used (it sends "
+                "registry data in a layout the 767-protocol bot cannot parse; the statement asks for 'configuration finish'). "
+                "Schedule-dependent failures do not shrink (rapid reports them as flaky; the driver still reports the violation).")
+
+prop("C20", shards=16, pkg="props_race", race=True, timeout=(1200, 7200),
+     technique="rapid-generated goroutine plans with yield perturbation under the race detector; recorded histories checked for linearizability (porcupine) against a FIFO-with-close specification plus direct invariants",
+     rule="C20Queue: LinkedListQueue and ChannelQueue(n in {0,1,4,64}); 1..8 producers x 1..8 consumers x one closer that runs after "
+          "the producers' WaitGroup; items tagged (producer, seq); a generated yield (Gosched x1..3, 10/50 us sleep) before every "
+          "push/pull and before Close; consumers optionally parked before the first push. Oracle: every history: accepted pushes "
+          "== pulls as multisets (no loss, duplicate, invention), per-producer order within each consumer, unbounded Push never "
+          "refuses, producers finish within 20 s (Push does not block), all consumers return within 15 s after Close has "
+          "returned with every producer done (no later event can wake them: lost wake-up / deadlock); histories of <= 70 operations "
+          "are checked by porcupine against harness/ref/fifo (bounded Push refuses only when full; Pull reports closure only when "
+          "closed and empty). C20Pools: 16..32 goroutines x 1..6 iterations each pack/unpack 3 packets (thresholds 0/16/256/-1, "
+          "sizes 0..70000) and NBT-encode/decode a struct type nobody has used before (first use of the type cache races) holding "
+          "their own recognisable bytes: decoded data == own data, earlier returned payloads unchanged. C20Players: 2..16 goroutines "
+          "issuing ClientJoin/ClientLeft/CheckPlayer/Len/OnlinePlayer/PlayerSamples on a list of capacity 1..8: no sample exceeds "
+          "the capacity, empty at the end. The race detector watches every run. Non-trivial: >= 2 producers and >= 2 consumers "
+          "with consumers parked first or more items than consumers; more goroutines than capacity. Distinct: hash of the plan.",
+     level_text="Sampling of schedules (weakest evidence in the set): the harness does not own the Go scheduler; yields and the race "
+                "detector expose gross errors (missing Signal/Broadcast, double delivery, pooled buffer retained).",
+     level_note="Trusted: porcupine v1.3.0, harness/ref/fifo, sync/atomic logical clock for call/return stamps. Wall-clock limits are "
+                "hang detectors applied only in states no later event can change. A rare interleaving may be missed; failures do "
+                "not shrink.")
